@@ -531,6 +531,15 @@ def r_be(run, F, rule="R-BE"):
 
 
 def r_frame(run, F, rule="R-FRAME"):
+    nb = F.body("ipp::IppHeader::new")
+    if nb is None:
+        run.anchor_lost(rule, "ipp::IppHeader::new")
+    else:
+        for p in paths_of(nb):
+            r = p.ret
+            ok = r[0] == "ctor" and isinstance(r[2], dict) and all(r[2].get(f) == ("var", f) for f in ("version", "operation_or_status", "request_id"))
+            run.ob(rule, "IppHeader::new stores version, operation-or-status and request-id as given", ok, "constructor builds %s" % tshow(r)[:160], site(nb),
+                   key="%s|header-new" % rule)
     hb = F.body("ipp::IppHeader::to_bytes")
     if hb is None:
         run.anchor_lost(rule, "ipp::IppHeader::to_bytes")
